@@ -1,8 +1,7 @@
-// ---- shims/string_len.rs : byte length of a std String (vstd has no spec for String::len) ------
+// ---- shims/string_len.rs : String::len as an uninterpreted byte length ---------------------------
 pub mod string_len {
     use vstd::prelude::*;
-    /// the length in bytes of the UTF-8 encoding (what `String::len` returns); uninterpreted
-    pub uninterp spec fn string_len(s: &String) -> usize;
-    pub assume_specification [std::string::String::len] (s: &std::string::String) -> (r: usize)
-        ensures r == string_len(s);
+    /// length in bytes of the UTF-8 encoding (what `String::len` returns); no string reasoning is done
+    pub uninterp spec fn string_byte_len(s: &String) -> usize;
+    pub assume_specification[String::len](s: &String) -> (r: usize) ensures r == string_byte_len(s);
 }
